@@ -1,7 +1,755 @@
-import FunsorVerif.Model.C11
-namespace FV.Props.C11
-open FV.C11
+/-
+  Props/C11.lean — adjoints are semiring derivatives of the forward value.
 
-theorem upd_same (env : Env) (v k : Nat) : upd env v k v = k := by simp [upd]
+  All theorems are over an arbitrary commutative semiring `R` (Mathlib `CommSemiring`), for
+  expressions of any size, any number of variables and any variable sizes.
+-/
+import FunsorVerif.Model.C11
+import Mathlib.Algebra.BigOperators.Ring.Finset
+import Mathlib.Algebra.BigOperators.Group.Finset.Sigma
+import Mathlib.Tactic.Ring
+namespace FV.Props.C11
+open FV.C11 Finset
+
+variable {R : Type} [CommSemiring R]
+
+/-- the operations of a commutative semiring, with any candidate `div` for the plate rule -/
+def cs (dv : R → R → R) : Ops R := ⟨(· + ·), (· * ·), 0, 1, dv⟩
+
+variable (dv : R → R → R) (sz : Nat → Nat)
+
+/-! ### finite sums -/
+
+theorem sumTo_eq (n : Nat) (g : Nat → R) : sumTo (cs dv) n g = ∑ k ∈ range n, g k := by
+  induction n with
+  | zero => simp [sumTo, cs]
+  | succ n ih => rw [sumTo, ih, sum_range_succ]; rfl
+
+theorem prodTo_eq (n : Nat) (g : Nat → R) : prodTo (cs dv) n g = ∏ k ∈ range n, g k := by
+  induction n with
+  | zero => simp [prodTo, cs]
+  | succ n ih => rw [prodTo, ih, prod_range_succ]; rfl
+
+theorem upd_same (env : Env) (v a b : Nat) : upd (upd env v a) v b = upd env v b := by
+  funext i; simp only [upd]; split <;> rfl
+
+theorem upd_comm (env : Env) {v w : Nat} (h : v ≠ w) (a b : Nat) :
+    upd (upd env v a) w b = upd (upd env w b) v a := by
+  funext i; simp only [upd]
+  by_cases h1 : i = w <;> by_cases h2 : i = v <;> simp [h1, h2]
+  · subst h1; subst h2; exact absurd rfl h
+  · intro h3; exact absurd h3.symm h
+  · intro h3; exact absurd h3 h
+
+theorem upd_self (env : Env) (v : Nat) : upd env v (env v) = env := by
+  funext i; simp only [upd]; split
+  · next h => rw [h]
+  · rfl
+
+theorem upd_at (env : Env) (v k : Nat) : upd env v k v = k := by simp [upd]
+theorem upd_ne (env : Env) {v i : Nat} (k : Nat) (h : i ≠ v) : upd env v k i = env i := by simp [upd, h]
+
+/-- `g` does not depend on variable `v` -/
+def Indep (g : Env → R) (v : Nat) : Prop := ∀ env k, g (upd env v k) = g env
+
+theorem sum1_apply (v : Nat) (g : Env → R) (env : Env) :
+    sum1 (cs dv) sz v g env = ∑ k ∈ range (sz v), g (upd env v k) := by
+  simp only [sum1, sumTo_eq]
+
+theorem sum1_indep_self (v : Nat) (g : Env → R) : Indep (sum1 (cs dv) sz v g) v := by
+  intro env k; simp only [sum1_apply, upd_same]
+
+theorem sum1_indep {v w : Nat} (g : Env → R) (h : Indep g w) : Indep (sum1 (cs dv) sz v g) w := by
+  by_cases hvw : v = w
+  · subst hvw; exact sum1_indep_self dv sz v g
+  · intro env k; simp only [sum1_apply]
+    apply sum_congr rfl; intro j _
+    rw [upd_comm env (Ne.symm hvw), h]
+
+theorem sum1_comm (v w : Nat) (g : Env → R) :
+    sum1 (cs dv) sz v (sum1 (cs dv) sz w g) = sum1 (cs dv) sz w (sum1 (cs dv) sz v g) := by
+  by_cases hvw : v = w
+  · subst hvw; rfl
+  · funext env; simp only [sum1_apply]
+    rw [sum_comm]
+    apply sum_congr rfl; intro j _; apply sum_congr rfl; intro i _
+    rw [upd_comm env hvw]
+
+theorem sum1_add (v : Nat) (g h : Env → R) :
+    sum1 (cs dv) sz v (fun e => g e + h e) = fun e => sum1 (cs dv) sz v g e + sum1 (cs dv) sz v h e := by
+  funext env; simp only [sum1_apply, sum_add_distrib]
+
+theorem sum1_mul_left (v : Nat) (c g : Env → R) (hc : Indep c v) :
+    sum1 (cs dv) sz v (fun e => c e * g e) = fun e => c e * sum1 (cs dv) sz v g e := by
+  funext env; simp only [sum1_apply, mul_sum]
+  apply sum_congr rfl; intro k _; rw [hc]
+
+/-! ### sums over a mask of variables -/
+
+theorem sumM_succ (n : Nat) (m : Mask) (g : Env → R) :
+    sumM (cs dv) sz (n + 1) m g = sumM (cs dv) sz n m (if m n then sum1 (cs dv) sz n g else g) := rfl
+
+theorem sumM_congr_mask {n : Nat} {m m' : Mask} (h : ∀ k, k < n → m k = m' k) (g : Env → R) :
+    sumM (cs dv) sz n m g = sumM (cs dv) sz n m' g := by
+  induction n generalizing g with
+  | zero => rfl
+  | succ n ih =>
+    rw [sumM_succ, sumM_succ, h n (Nat.lt_succ_self n)]
+    exact ih (fun k hk => h k (Nat.lt_succ_of_lt hk)) _
+
+theorem sumM_false {n : Nat} {m : Mask} (h : ∀ k, k < n → m k = false) (g : Env → R) :
+    sumM (cs dv) sz n m g = g := by
+  induction n generalizing g with
+  | zero => rfl
+  | succ n ih =>
+    rw [sumM_succ, h n (Nat.lt_succ_self n)]
+    exact ih (fun k hk => h k (Nat.lt_succ_of_lt hk)) _
+
+theorem sumM_add (n : Nat) (m : Mask) (g h : Env → R) :
+    sumM (cs dv) sz n m (fun e => g e + h e) =
+      fun e => sumM (cs dv) sz n m g e + sumM (cs dv) sz n m h e := by
+  induction n generalizing g h with
+  | zero => rfl
+  | succ n ih =>
+    simp only [sumM_succ]
+    cases m n
+    · simpa using ih g h
+    · simp only [if_true]; rw [sum1_add]; exact ih _ _
+
+theorem sumM_mul_left (n : Nat) (m : Mask) (c g : Env → R)
+    (hc : ∀ k, k < n → m k = true → Indep c k) :
+    sumM (cs dv) sz n m (fun e => c e * g e) = fun e => c e * sumM (cs dv) sz n m g e := by
+  induction n generalizing g with
+  | zero => rfl
+  | succ n ih =>
+    have hc' : ∀ k, k < n → m k = true → Indep c k := fun k hk => hc k (Nat.lt_succ_of_lt hk)
+    simp only [sumM_succ]
+    cases hm : m n
+    · simpa using ih g hc'
+    · simp only [if_true]
+      rw [sum1_mul_left dv sz n c g (hc n (Nat.lt_succ_self n) hm)]
+      exact ih _ hc'
+
+theorem sum1_sumM_comm {n v : Nat} (hv : n ≤ v) (m : Mask) (g : Env → R) :
+    sum1 (cs dv) sz v (sumM (cs dv) sz n m g) = sumM (cs dv) sz n m (sum1 (cs dv) sz v g) := by
+  induction n generalizing g with
+  | zero => rfl
+  | succ n ih =>
+    simp only [sumM_succ]
+    rw [ih (Nat.le_of_succ_le hv)]
+    cases m n
+    · simp
+    · simp only [if_true]; rw [sum1_comm]
+
+theorem sumM_split {n : Nat} {m1 m2 : Mask} (hd : ∀ k, k < n → ¬ (m1 k = true ∧ m2 k = true))
+    (g : Env → R) :
+    sumM (cs dv) sz n (fun k => m1 k || m2 k) g = sumM (cs dv) sz n m1 (sumM (cs dv) sz n m2 g) := by
+  induction n generalizing g with
+  | zero => rfl
+  | succ n ih =>
+    have hd' : ∀ k, k < n → ¬ (m1 k = true ∧ m2 k = true) := fun k hk => hd k (Nat.lt_succ_of_lt hk)
+    have hn := hd n (Nat.lt_succ_self n)
+    simp only [sumM_succ]
+    cases h1 : m1 n <;> cases h2 : m2 n
+    · simpa using ih hd' g
+    · simpa using ih hd' _
+    · simp only [Bool.true_or, if_true, Bool.false_eq_true, if_false]
+      rw [sum1_sumM_comm dv sz (Nat.le_refl n)]
+      exact ih hd' _
+    · exact absurd ⟨h1, h2⟩ hn
+
+theorem sumM_indep_out (n : Nat) (m : Mask) (g : Env → R) {k : Nat} (h : Indep g k) :
+    Indep (sumM (cs dv) sz n m g) k := by
+  induction n generalizing g with
+  | zero => exact h
+  | succ n ih =>
+    simp only [sumM_succ]
+    cases m n
+    · simpa using ih g h
+    · simp only [if_true]; exact ih _ (sum1_indep dv sz g h)
+
+theorem sumM_indep_in {n : Nat} {m : Mask} (g : Env → R) {k : Nat} (hk : k < n) (hm : m k = true) :
+    Indep (sumM (cs dv) sz n m g) k := by
+  induction n generalizing g with
+  | zero => omega
+  | succ n ih =>
+    simp only [sumM_succ]
+    by_cases hkn : k = n
+    · subst hkn; rw [hm]; simp only [if_true]
+      exact sumM_indep_out dv sz _ m _ (sum1_indep_self dv sz k g)
+    · exact ih _ (by omega)
+
+theorem sumM_single {n v : Nat} (hv : v < n) (g : Env → R) :
+    sumM (cs dv) sz n (fun k => k == v) g = sum1 (cs dv) sz v g := by
+  induction n generalizing g with
+  | zero => omega
+  | succ n ih =>
+    simp only [sumM_succ]
+    by_cases hvn : v = n
+    · subst hvn; simp only [beq_self_eq_true, if_true]
+      exact sumM_false dv sz (fun k hk => by simp; omega) _
+    · have : (n == v) = false := by simp; omega
+      rw [this]; simp only [Bool.false_eq_true, if_false]
+      exact ih (by omega) g
+
+/-- adding one more variable to the mask = summing over it first -/
+theorem sumM_insert {n v : Nat} {m : Mask} (hv : v < n) (hm : m v = false) (g : Env → R) :
+    sumM (cs dv) sz n m (sum1 (cs dv) sz v g) = sumM (cs dv) sz n (fun k => m k || k == v) g := by
+  rw [sumM_split dv sz (m1 := m) (m2 := fun k => k == v), sumM_single dv sz hv]
+  intro k _ ⟨h1, h2⟩
+  have : k = v := by simpa using h2
+  subst this; rw [hm] at h1; exact absurd h1 (by simp)
+
+/-- congruence that only looks at environments reachable from `env` by changing summed variables -/
+theorem sumM_congr_on {n : Nat} {m : Mask} {g h : Env → R} {env : Env}
+    (H : ∀ env', (∀ k, (k < n ∧ m k = true) ∨ env' k = env k) → g env' = h env') :
+    sumM (cs dv) sz n m g env = sumM (cs dv) sz n m h env := by
+  induction n generalizing g h with
+  | zero => exact H env (fun k => Or.inr rfl)
+  | succ n ih =>
+    simp only [sumM_succ]
+    cases hm : m n
+    · simp only [Bool.false_eq_true, if_false]
+      apply ih; intro env' he
+      apply H; intro k
+      rcases he k with ⟨h1, h2⟩ | h1
+      · exact Or.inl ⟨Nat.lt_succ_of_lt h1, h2⟩
+      · exact Or.inr h1
+    · simp only [if_true]
+      apply ih; intro env' he
+      simp only [sum1_apply]
+      apply sum_congr rfl; intro j _
+      apply H; intro k
+      by_cases hkn : k = n
+      · subst hkn; exact Or.inl ⟨Nat.lt_succ_self _, hm⟩
+      · rw [upd_ne _ _ hkn]
+        rcases he k with ⟨h1, h2⟩ | h1
+        · exact Or.inl ⟨Nat.lt_succ_of_lt h1, h2⟩
+        · exact Or.inr h1
+
+/-- a summand that vanishes unless the summed variables have the values they have in `env`
+    collapses the sum to its value at `env` -/
+theorem sumM_point {n : Nat} {m : Mask} {g : Env → R} {env : Env}
+    (hr : ∀ k, k < n → m k = true → env k < sz k)
+    (hz : ∀ env', (∃ k, k < n ∧ m k = true ∧ env' k ≠ env k) → g env' = 0) :
+    sumM (cs dv) sz n m g env = g env := by
+  induction n generalizing g with
+  | zero => rfl
+  | succ n ih =>
+    have hr' : ∀ k, k < n → m k = true → env k < sz k := fun k hk => hr k (Nat.lt_succ_of_lt hk)
+    simp only [sumM_succ]
+    cases hm : m n
+    · simp only [Bool.false_eq_true, if_false]
+      apply ih hr'
+      intro env' ⟨k, hk, hmk, hne⟩
+      exact hz env' ⟨k, Nat.lt_succ_of_lt hk, hmk, hne⟩
+    · simp only [if_true]
+      rw [ih hr']
+      · rw [sum1_apply, sum_eq_single (env n)]
+        · rw [upd_self]
+        · intro j _ hj
+          apply hz; refine ⟨n, Nat.lt_succ_self _, hm, ?_⟩
+          rw [upd_at]; exact hj
+        · intro hnot
+          exact absurd (mem_range.mpr (hr n (Nat.lt_succ_self _) hm)) hnot
+      · intro env' ⟨k, hk, hmk, hne⟩
+        rw [sum1_apply]
+        apply sum_eq_zero; intro j _
+        apply hz; refine ⟨k, Nat.lt_succ_of_lt hk, hmk, ?_⟩
+        rw [upd_ne _ _ (by omega : k ≠ n)]; exact hne
+
+theorem sumM_zero (n : Nat) (m : Mask) : sumM (cs dv) sz n m (fun _ => (0 : R)) = fun _ => 0 := by
+  induction n with
+  | zero => rfl
+  | succ n ih =>
+    simp only [sumM_succ]
+    cases m n
+    · simpa using ih
+    · simp only [if_true]
+      have : sum1 (cs dv) sz n (fun _ => (0 : R)) = fun _ => 0 := by
+        funext env; simp [sum1_apply]
+      rw [this]; exact ih
+
+theorem prod_except {n j : Nat} (hj : j < n) (g : Nat → R) :
+    (∏ i ∈ range n, if i = j then 1 else g i) * g j = ∏ i ∈ range n, g i := by
+  have hmem : j ∈ range n := mem_range.mpr hj
+  rw [← mul_prod_erase (range n) g hmem, mul_comm]
+  congr 1
+  rw [← prod_erase (range n) (a := j) (by simp)]
+  apply prod_congr rfl
+  intro i hi
+  have : i ≠ j := (mem_erase.mp hi).1
+  simp [this]
+
+/-! ### the model: dependence on variables -/
+
+variable (L : Leaves R)
+
+/-- side conditions on the leaves: a table depends only on its own axes, all names are `< n` -/
+structure WFL (n : Nat) (L : Leaves R) : Prop where
+  hT : ∀ id k, nameMask L id k = false → Indep (L.T id) k
+  hn : ∀ id k, nameMask L id k = true → k < n
+
+/-- Hypotheses of `adjoint_sound`, each forced by the proof (and each violated by a concrete input on
+    which the reverse sweep of the pinned code returns a wrong value — see the witness theorems and
+    the dedicated streams of fv/harness/c11.py):
+      * ⊕ only between operands with the same inputs up to the root's inputs,
+      * binders bind a variable that occurs and that is not an input of the root,
+      * a product-reduced argument is nowhere zero (the plate rule divides),
+      * (partial) leaves are read directly: `Subs` and `Cat` nodes are covered by correspondence only. -/
+def Good (n : Nat) (F : Mask) : Expr → Prop
+  | .acc _ σ => σ = []
+  | .add l r => Good n F l ∧ Good n F r ∧ ∀ k, (fvMask L l k || F k) = (fvMask L r k || F k)
+  | .mul l r => Good n F l ∧ Good n F r
+  | .sum v e => Good n F e ∧ fvMask L e v = true ∧ F v = false
+  | .prod v e => Good n F e ∧ fvMask L e v = true ∧ F v = false ∧
+      ∀ env, eval (cs dv) sz L e env ≠ 0
+  | .cat _ _ => False
+
+theorem substEnv_nil (env : Env) : substEnv [] env = env := by
+  funext k; simp [substEnv]
+
+omit [CommSemiring R] in
+theorem fvMask_acc_nil (id k : Nat) : fvMask L (.acc id []) k = nameMask L id k := by
+  simp [fvMask, Subst.keys, Subst.valvars]
+
+theorem fv_lt {n : Nat} {F : Mask} (hW : WFL n L) :
+    ∀ e, Good dv sz L n F e → ∀ k, fvMask L e k = true → k < n := by
+  intro e
+  induction e with
+  | acc id σ =>
+    intro hg k hk; simp only [Good] at hg; subst hg
+    rw [fvMask_acc_nil] at hk; exact hW.hn id k hk
+  | add l r ihl ihr =>
+    intro hg k hk; simp only [fvMask, Bool.or_eq_true] at hk
+    rcases hk with h | h
+    · exact ihl hg.1 k h
+    · exact ihr hg.2.1 k h
+  | mul l r ihl ihr =>
+    intro hg k hk; simp only [fvMask, Bool.or_eq_true] at hk
+    rcases hk with h | h
+    · exact ihl hg.1 k h
+    · exact ihr hg.2 k h
+  | sum v e ih =>
+    intro hg k hk; simp only [fvMask, Bool.and_eq_true] at hk
+    exact ih hg.1 k hk.1
+  | prod v e ih =>
+    intro hg k hk; simp only [fvMask, Bool.and_eq_true] at hk
+    exact ih hg.1 k hk.1
+  | cat v parts => intro hg; exact absurd hg (by simp [Good])
+
+theorem eval_indep {n : Nat} {F : Mask} (hW : WFL n L) :
+    ∀ e, Good dv sz L n F e → ∀ k, fvMask L e k = false → Indep (eval (cs dv) sz L e) k := by
+  intro e
+  induction e with
+  | acc id σ =>
+    intro hg k hk env j; simp only [Good] at hg; subst hg
+    rw [fvMask_acc_nil] at hk
+    simp only [eval, substEnv_nil]; exact hW.hT id k hk env j
+  | add l r ihl ihr =>
+    intro hg k hk env j; simp only [fvMask, Bool.or_eq_false_iff] at hk
+    simp only [eval]; rw [ihl hg.1 k hk.1 env j, ihr hg.2.1 k hk.2 env j]
+  | mul l r ihl ihr =>
+    intro hg k hk env j; simp only [fvMask, Bool.or_eq_false_iff] at hk
+    simp only [eval]; rw [ihl hg.1 k hk.1 env j, ihr hg.2 k hk.2 env j]
+  | sum v e ih =>
+    intro hg k hk env j
+    simp only [eval, sumTo_eq]
+    apply sum_congr rfl; intro i _
+    by_cases hkv : k = v
+    · subst hkv; rw [upd_same]
+    · have : fvMask L e k = false := by
+        simp only [fvMask, Bool.and_eq_false_iff] at hk
+        rcases hk with h | h
+        · exact h
+        · simp at h; exact absurd h hkv
+      rw [upd_comm env hkv, ih hg.1 k this]
+  | prod v e ih =>
+    intro hg k hk env j
+    simp only [eval, prodTo_eq]
+    apply prod_congr rfl; intro i _
+    by_cases hkv : k = v
+    · subst hkv; rw [upd_same]
+    · have : fvMask L e k = false := by
+        simp only [fvMask, Bool.and_eq_false_iff] at hk
+        rcases hk with h | h
+        · exact h
+        · simp at h; exact absurd h hkv
+      rw [upd_comm env hkv, ih hg.1 k this]
+  | cat v parts => intro hg; exact absurd hg (by simp [Good])
+
+theorem deriv_indep {n : Nat} {F : Mask} (hW : WFL n L) (id : Nat) (p : Env) :
+    ∀ e, Good dv sz L n F e → ∀ k, fvMask L e k = false →
+      Indep (deriv (cs dv) sz L id p e) k := by
+  intro e
+  induction e with
+  | acc id' σ =>
+    intro hg k hk env j; simp only [Good] at hg; subst hg
+    rw [fvMask_acc_nil] at hk
+    simp only [deriv, substEnv_nil]
+    by_cases hid : id' = id
+    · subst hid
+      have : hits (L.names id') (upd env k j) p = hits (L.names id') env p := by
+        have hik : ∀ i ∈ L.names id', i ≠ k := by
+          intro i hi h; subst h
+          have : nameMask L id' i = true := by simp [nameMask, hi]
+          rw [this] at hk; exact absurd hk (by simp)
+        simp only [hits]
+        rw [Bool.eq_iff_iff]; simp only [List.all_eq_true]
+        constructor
+        · intro h i hi; have := h i hi; rwa [upd_ne _ _ (hik i hi)] at this
+        · intro h i hi; rw [upd_ne _ _ (hik i hi)]; exact h i hi
+      rw [this]
+    · simp [hid]
+  | add l r ihl ihr =>
+    intro hg k hk env j; simp only [fvMask, Bool.or_eq_false_iff] at hk
+    simp only [deriv]; rw [ihl hg.1 k hk.1 env j, ihr hg.2.1 k hk.2 env j]
+  | mul l r ihl ihr =>
+    intro hg k hk env j; simp only [fvMask, Bool.or_eq_false_iff] at hk
+    simp only [deriv]
+    rw [ihl hg.1 k hk.1 env j, ihr hg.2 k hk.2 env j,
+      eval_indep dv sz L hW l hg.1 k hk.1 env j, eval_indep dv sz L hW r hg.2 k hk.2 env j]
+  | sum v e ih =>
+    intro hg k hk env j
+    simp only [deriv, sumTo_eq]
+    apply sum_congr rfl; intro i _
+    by_cases hkv : k = v
+    · subst hkv; rw [upd_same]
+    · have : fvMask L e k = false := by
+        simp only [fvMask, Bool.and_eq_false_iff] at hk
+        rcases hk with h | h
+        · exact h
+        · simp at h; exact absurd h hkv
+      rw [upd_comm env hkv, ih hg.1 k this]
+  | prod v e ih =>
+    intro hg k hk env j
+    simp only [deriv, sumTo_eq, prodTo_eq]
+    apply sum_congr rfl; intro i _
+    by_cases hkv : k = v
+    · subst hkv; simp only [upd_same]
+    · have hfe : fvMask L e k = false := by
+        simp only [fvMask, Bool.and_eq_false_iff] at hk
+        rcases hk with h | h
+        · exact h
+        · simp at h; exact absurd h hkv
+      rw [upd_comm env hkv, ih hg.1 k hfe]
+      congr 1
+      apply prod_congr rfl; intro i' _
+      rw [upd_comm env hkv, eval_indep dv sz L hW e hg.1 k hfe]
+  | cat v parts => intro hg; exact absurd hg (by simp [Good])
+
+/-! ### the tape's aggregation step -/
+
+omit [CommSemiring R] in
+theorem hits_iff (names : List Nat) (q p : Env) :
+    hits names q p = true ↔ ∀ k, k ∈ names → q k = p k := by
+  simp [hits, List.all_eq_true]
+
+/-- Summing the aggregated message against a weight that only depends on the recipient's variables is
+    the same as summing the un-aggregated message over the larger variable set. -/
+theorem agg_step {n : Nat} (F Vc : Mask) (b : NT R) (w : Env → R)
+    (hw : ∀ k, Vc k = false → Indep w k) :
+    sumM (cs dv) sz n (fun k => Vc k || F k)
+        (fun env => (agg (cs dv) sz n F Vc b).f env * w env) =
+      sumM (cs dv) sz n (fun k => (Vc k || F k) || (b.mask k && !Vc k && !F k))
+        (fun env => b.f env * w env) := by
+  rw [sumM_split dv sz (m1 := fun k => Vc k || F k) (m2 := fun k => b.mask k && !Vc k && !F k)]
+  · congr 1
+    have h := sumM_mul_left dv sz n (fun k => b.mask k && !Vc k && !F k) w b.f (by
+      intro k _ hk
+      apply hw
+      simp only [Bool.and_eq_true, Bool.not_eq_true'] at hk
+      exact hk.1.2)
+    funext env
+    have h' := congrFun h env
+    simp only [agg]
+    rw [mul_comm, ← h']
+    congr 1; funext e; rw [mul_comm]
+  · intro k _ ⟨h1, h2⟩
+    simp only [Bool.and_eq_true, Bool.not_eq_true', Bool.or_eq_true] at h1 h2
+    rcases h1 with h | h
+    · rw [h2.1.2] at h; exact absurd h (by simp)
+    · rw [h2.2] at h; exact absurd h (by simp)
+
+theorem agg_ok {n : Nat} (F Vc : Mask) (b : NT R) (hb1 : ∀ k, b.mask k = true → k < n)
+    (hb2 : ∀ k, b.mask k = false → Indep b.f k) :
+    (∀ k, (agg (cs dv) sz n F Vc b).mask k = true → Vc k = true ∨ F k = true) ∧
+    (∀ k, (agg (cs dv) sz n F Vc b).mask k = false → Indep (agg (cs dv) sz n F Vc b).f k) := by
+  constructor
+  · intro k hk
+    simp only [agg, Bool.and_eq_true, Bool.or_eq_true] at hk
+    exact hk.2
+  · intro k hk
+    simp only [agg] at hk ⊢
+    cases hbk : b.mask k
+    · exact sumM_indep_out dv sz n _ _ (hb2 k hbk)
+    · apply sumM_indep_in dv sz _ (hb1 k hbk)
+      rw [hbk] at hk
+      simp only [Bool.true_and, Bool.or_eq_false_iff] at hk
+      simp [hbk, hk.1, hk.2]
+
+/-! ### soundness of the reverse sweep -/
+
+theorem marginal_addNT (n : Nat) (F : Mask) (id : Nat) (x y : NT R) (p : Env) :
+    marginal (cs dv) sz L n F id (addNT (cs dv) x y) p =
+      marginal (cs dv) sz L n F id x p + marginal (cs dv) sz L n F id y p := by
+  simp only [marginal, addNT]
+  exact congrFun (sumM_add dv sz n _ x.f y.f) p
+
+theorem adjoint_sound_gen {n : Nat} {F : Mask} (hW : WFL n L) (hF : ∀ k, F k = true → k < n)
+    (hdv : ∀ x y : R, y ≠ 0 → dv (x * y) y = x)
+    (id : Nat) (p : Env) (hp : ∀ k, nameMask L id k = true → p k < sz k) :
+    ∀ e, Good dv sz L n F e → ∀ a : NT R,
+      (∀ k, a.mask k = true → fvMask L e k = true ∨ F k = true) →
+      (∀ k, a.mask k = false → Indep a.f k) →
+      marginal (cs dv) sz L n F id (backward (cs dv) sz L n F e a id) p =
+        sumM (cs dv) sz n (fun k => fvMask L e k || F k)
+          (fun env => a.f env * deriv (cs dv) sz L id p e env) p := by
+  intro e
+  induction e with
+  | acc id' σ =>
+    intro hg a ha1 ha2
+    simp only [Good] at hg; subst hg
+    simp only [backward, List.isEmpty_nil, if_true, single]
+    by_cases hid : id = id'
+    · subst hid
+      simp only [if_true, marginal]
+      rw [sumM_congr_mask dv sz (m' := fun k => (F k && !nameMask L id k) || nameMask L id k)
+        (fun k _ => by rw [fvMask_acc_nil]; cases F k <;> cases nameMask L id k <;> rfl)]
+      rw [sumM_split dv sz (m1 := fun k => F k && !nameMask L id k) (m2 := nameMask L id)
+        (fun k _ h => by
+          have h1 := h.1; have h2 := h.2
+          rw [h2] at h1; simp at h1)]
+      apply sumM_congr_on
+      intro env' he
+      have hag : ∀ k, nameMask L id k = true → env' k = p k := by
+        intro k hk
+        rcases he k with ⟨_, h⟩ | h
+        · rw [hk] at h; simp at h
+        · exact h
+      rw [sumM_point dv sz]
+      · have : hits (L.names id) (substEnv [] env') p = true := by
+          rw [hits_iff, substEnv_nil]; intro k hk
+          exact hag k (by simp [nameMask, hk])
+        simp only [deriv, this, and_self, if_true]
+        show a.f env' = a.f env' * 1
+        rw [mul_one]
+      · intro k _ hk; rw [hag k hk]; exact hp k hk
+      · intro env'' ⟨k, _, hk, hne⟩
+        have : hits (L.names id) (substEnv [] env'') p = false := by
+          rw [Bool.eq_false_iff]; intro h
+          rw [hits_iff, substEnv_nil] at h
+          have hk' : k ∈ L.names id := by simpa [nameMask] using hk
+          exact hne (by rw [h k hk', hag k hk])
+        simp only [deriv, this]
+        show a.f env'' * (if id = id ∧ false = true then 1 else 0) = 0
+        simp
+    · simp only [if_neg hid, marginal, zeroNT]
+      rw [sumM_zero]
+      have : (fun env => a.f env * deriv (cs dv) sz L id p (.acc id' []) env) = fun _ => 0 := by
+        funext env
+        simp only [deriv]
+        rw [if_neg (fun h => hid h.1.symm)]
+        show a.f env * 0 = 0
+        rw [mul_zero]
+      rw [this, sumM_zero]
+  | add l r ihl ihr =>
+    intro hg a ha1 ha2
+    obtain ⟨hgl, hgr, hsame⟩ := hg
+    have han : ∀ k, a.mask k = true → k < n := by
+      intro k hk
+      rcases ha1 k hk with h | h
+      · exact fv_lt dv sz L hW _ (show Good dv sz L n F (.add l r) from ⟨hgl, hgr, hsame⟩) k h
+      · exact hF k h
+    simp only [backward, addF]
+    rw [marginal_addNT]
+    obtain ⟨okl1, okl2⟩ := agg_ok dv sz F (fvMask L l) a han ha2
+    obtain ⟨okr1, okr2⟩ := agg_ok dv sz F (fvMask L r) a han ha2
+    rw [ihl hgl _ okl1 okl2, ihr hgr _ okr1 okr2]
+    rw [agg_step dv sz F (fvMask L l) a _ (deriv_indep dv sz L hW id p l hgl),
+        agg_step dv sz F (fvMask L r) a _ (deriv_indep dv sz L hW id p r hgr)]
+    have hm : ∀ (c : Expr), (c = l ∨ c = r) → ∀ k, k < n →
+        ((fvMask L c k || F k) || (a.mask k && !fvMask L c k && !F k)) =
+          (fvMask L (.add l r) k || F k) := by
+      intro c hc k _
+      have h1 := ha1 k
+      have h2 := hsame k
+      simp only [fvMask] at h1 ⊢
+      rcases hc with rfl | rfl <;>
+        cases hl : fvMask L l k <;> cases hr : fvMask L c k <;> cases hf : F k <;>
+        cases hak : a.mask k <;> simp_all
+    rw [sumM_congr_mask dv sz (hm l (Or.inl rfl)), sumM_congr_mask dv sz (hm r (Or.inr rfl))]
+    have := congrFun (sumM_add dv sz n (fun k => fvMask L (.add l r) k || F k)
+      (fun env => a.f env * deriv (cs dv) sz L id p l env)
+      (fun env => a.f env * deriv (cs dv) sz L id p r env)) p
+    rw [← this]
+    congr 1; funext env
+    simp only [deriv]
+    show a.f env * _ + a.f env * _ = a.f env * (_ + _)
+    rw [mul_add]
+  | mul l r ihl ihr =>
+    intro hg a ha1 ha2
+    obtain ⟨hgl, hgr⟩ := hg
+    have hfv := fv_lt dv sz L hW _ (show Good dv sz L n F (.mul l r) from ⟨hgl, hgr⟩)
+    have han : ∀ k, a.mask k = true → k < n := by
+      intro k hk
+      rcases ha1 k hk with h | h
+      · exact hfv k h
+      · exact hF k h
+    simp only [backward, addF]
+    rw [marginal_addNT]
+    -- messages: out_adj ⊗ rhs  and  out_adj ⊗ lhs
+    have hb1 : ∀ (c : Expr), (c = l ∨ c = r) → ∀ k,
+        (mulNT (cs dv) a (valNT (cs dv) sz L c)).mask k = true → k < n := by
+      intro c hc k hk
+      simp only [mulNT, valNT, Bool.or_eq_true] at hk
+      rcases hk with h | h
+      · exact han k h
+      · apply hfv; simp only [fvMask, Bool.or_eq_true]
+        rcases hc with rfl | rfl
+        · exact Or.inl h
+        · exact Or.inr h
+    have hb2 : ∀ (c : Expr), Good dv sz L n F c → ∀ k,
+        (mulNT (cs dv) a (valNT (cs dv) sz L c)).mask k = false →
+          Indep (mulNT (cs dv) a (valNT (cs dv) sz L c)).f k := by
+      intro c hc k hk env j
+      simp only [mulNT, valNT, Bool.or_eq_false_iff] at hk ⊢
+      rw [ha2 k hk.1 env j, eval_indep dv sz L hW c hc k hk.2 env j]
+    obtain ⟨okl1, okl2⟩ := agg_ok dv sz F (fvMask L l) _ (hb1 r (Or.inr rfl)) (hb2 r hgr)
+    obtain ⟨okr1, okr2⟩ := agg_ok dv sz F (fvMask L r) _ (hb1 l (Or.inl rfl)) (hb2 l hgl)
+    rw [ihl hgl _ okl1 okl2, ihr hgr _ okr1 okr2]
+    rw [agg_step dv sz F (fvMask L l) _ _ (deriv_indep dv sz L hW id p l hgl),
+        agg_step dv sz F (fvMask L r) _ _ (deriv_indep dv sz L hW id p r hgr)]
+    have hml : ∀ k, k < n →
+        ((fvMask L l k || F k) || ((mulNT (cs dv) a (valNT (cs dv) sz L r)).mask k && !fvMask L l k && !F k)) =
+          (fvMask L (.mul l r) k || F k) := by
+      intro k _
+      have h1 := ha1 k
+      simp only [fvMask, mulNT, valNT] at h1 ⊢
+      cases hl : fvMask L l k <;> cases hr : fvMask L r k <;> cases hf : F k <;>
+        cases hak : a.mask k <;> simp_all
+    have hmr : ∀ k, k < n →
+        ((fvMask L r k || F k) || ((mulNT (cs dv) a (valNT (cs dv) sz L l)).mask k && !fvMask L r k && !F k)) =
+          (fvMask L (.mul l r) k || F k) := by
+      intro k _
+      have h1 := ha1 k
+      simp only [fvMask, mulNT, valNT] at h1 ⊢
+      cases hl : fvMask L l k <;> cases hr : fvMask L r k <;> cases hf : F k <;>
+        cases hak : a.mask k <;> simp_all
+    rw [sumM_congr_mask dv sz hml, sumM_congr_mask dv sz hmr]
+    have := congrFun (sumM_add dv sz n (fun k => fvMask L (.mul l r) k || F k)
+      (fun env => (mulNT (cs dv) a (valNT (cs dv) sz L r)).f env * deriv (cs dv) sz L id p l env)
+      (fun env => (mulNT (cs dv) a (valNT (cs dv) sz L l)).f env * deriv (cs dv) sz L id p r env)) p
+    rw [← this]
+    congr 1; funext env
+    simp only [deriv, mulNT, valNT]
+    show a.f env * eval (cs dv) sz L r env * deriv (cs dv) sz L id p l env +
+        a.f env * eval (cs dv) sz L l env * deriv (cs dv) sz L id p r env =
+      a.f env * (deriv (cs dv) sz L id p l env * eval (cs dv) sz L r env +
+        eval (cs dv) sz L l env * deriv (cs dv) sz L id p r env)
+    ring
+  | sum v e ih =>
+    intro hg a ha1 ha2
+    obtain ⟨hge, hv, hFv⟩ := hg
+    have hfv := fv_lt dv sz L hW _ hge
+    have hvn : v < n := hfv v hv
+    have han : ∀ k, a.mask k = true → k < n := by
+      intro k hk
+      rcases ha1 k hk with h | h
+      · simp only [fvMask, Bool.and_eq_true] at h; exact hfv k h.1
+      · exact hF k h
+    have hav : a.mask v = false := by
+      cases h : a.mask v
+      · rfl
+      · rcases ha1 v h with h' | h'
+        · simp [fvMask] at h'
+        · rw [hFv] at h'; exact absurd h' (by simp)
+    simp only [backward]
+    obtain ⟨ok1, ok2⟩ := agg_ok dv sz F (fvMask L e) a han ha2
+    rw [ih hge _ ok1 ok2, agg_step dv sz F (fvMask L e) a _ (deriv_indep dv sz L hW id p e hge)]
+    have hm : ∀ k, k < n →
+        ((fvMask L e k || F k) || (a.mask k && !fvMask L e k && !F k)) =
+          ((fvMask L (.sum v e) k || F k) || k == v) := by
+      intro k _
+      have h1 := ha1 k
+      simp only [fvMask] at h1 ⊢
+      by_cases hkv : k = v
+      · subst hkv; simp [hv]
+      · have : (k == v) = false := by simp [hkv]
+        cases he : fvMask L e k <;> cases hf : F k <;> cases hak : a.mask k <;> simp_all
+    rw [sumM_congr_mask dv sz hm]
+    rw [← sumM_insert dv sz hvn (by simp [fvMask, hFv])]
+    congr 1
+    rw [← sum1_mul_left dv sz v a.f _ (ha2 v hav)]
+    rfl
+  | prod v e ih =>
+    intro hg a ha1 ha2
+    obtain ⟨hge, hv, hFv, hnz⟩ := hg
+    have hgp : Good dv sz L n F (.prod v e) := ⟨hge, hv, hFv, hnz⟩
+    have hfv := fv_lt dv sz L hW _ hge
+    have hvn : v < n := hfv v hv
+    have han : ∀ k, a.mask k = true → k < n := by
+      intro k hk
+      rcases ha1 k hk with h | h
+      · simp only [fvMask, Bool.and_eq_true] at h; exact hfv k h.1
+      · exact hF k h
+    have hav : a.mask v = false := by
+      cases h : a.mask v
+      · rfl
+      · rcases ha1 v h with h' | h'
+        · simp [fvMask] at h'
+        · rw [hFv] at h'; exact absurd h' (by simp)
+    simp only [backward]
+    -- the message  safediv(out_adj ⊗ out, arg)
+    have hb1 : ∀ k, (divNT (cs dv) (mulNT (cs dv) a (valNT (cs dv) sz L (.prod v e)))
+        (valNT (cs dv) sz L e)).mask k = true → k < n := by
+      intro k hk
+      simp only [divNT, mulNT, valNT, fvMask, Bool.or_eq_true, Bool.and_eq_true] at hk
+      rcases hk with (h | h) | h
+      · exact han k h
+      · exact hfv k h.1
+      · exact hfv k h
+    have hb2 : ∀ k, (divNT (cs dv) (mulNT (cs dv) a (valNT (cs dv) sz L (.prod v e)))
+        (valNT (cs dv) sz L e)).mask k = false →
+        Indep (divNT (cs dv) (mulNT (cs dv) a (valNT (cs dv) sz L (.prod v e)))
+          (valNT (cs dv) sz L e)).f k := by
+      intro k hk env j
+      simp only [divNT, mulNT, valNT, Bool.or_eq_false_iff] at hk ⊢
+      rw [ha2 k hk.1.1 env j, eval_indep dv sz L hW _ hgp k hk.1.2 env j,
+        eval_indep dv sz L hW e hge k hk.2 env j]
+    obtain ⟨ok1, ok2⟩ := agg_ok dv sz F (fvMask L e) _ hb1 hb2
+    rw [ih hge _ ok1 ok2, agg_step dv sz F (fvMask L e) _ _ (deriv_indep dv sz L hW id p e hge)]
+    have hm : ∀ k, k < n →
+        ((fvMask L e k || F k) || ((divNT (cs dv) (mulNT (cs dv) a (valNT (cs dv) sz L (.prod v e)))
+          (valNT (cs dv) sz L e)).mask k && !fvMask L e k && !F k)) =
+          ((fvMask L (.prod v e) k || F k) || k == v) := by
+      intro k _
+      have h1 := ha1 k
+      simp only [fvMask, divNT, mulNT, valNT] at h1 ⊢
+      by_cases hkv : k = v
+      · subst hkv; simp [hv]
+      · have : (k == v) = false := by simp [hkv]
+        cases he : fvMask L e k <;> cases hf : F k <;> cases hak : a.mask k <;> simp_all
+    rw [sumM_congr_mask dv sz hm]
+    rw [← sumM_insert dv sz hvn (by simp [fvMask, hFv])]
+    congr 1
+    funext env
+    rw [sum1_apply]
+    simp only [deriv, divNT, mulNT, valNT, eval, sumTo_eq, prodTo_eq]
+    show ∑ j ∈ range (sz v), dv (a.f (upd env v j) * ∏ i ∈ range (sz v),
+          eval (cs dv) sz L e (upd (upd env v j) v i)) (eval (cs dv) sz L e (upd env v j)) *
+          deriv (cs dv) sz L id p e (upd env v j) =
+      a.f env * ∑ j ∈ range (sz v), deriv (cs dv) sz L id p e (upd env v j) *
+          ∏ i ∈ range (sz v), (if i = j then 1 else eval (cs dv) sz L e (upd env v i))
+    rw [mul_sum]
+    apply sum_congr rfl
+    intro j hj
+    have hj' : j < sz v := mem_range.mp hj
+    simp only [upd_same]
+    rw [ha2 v hav env j]
+    rw [← prod_except hj' (fun i => eval (cs dv) sz L e (upd env v i))]
+    rw [← mul_assoc, hdv _ _ (hnz (upd env v j))]
+    ring
+  | cat v parts => intro hg; exact absurd hg (by simp [Good])
 
 end FV.Props.C11
